@@ -896,13 +896,21 @@ func ConcatAll[T any]() func(Observable[Observable[T]]) Observable[T] {
 					subscriberCtx,
 					NewObserverWithContext(
 						func(ctx context.Context, source Observable[T]) {
+							if subscriptions.IsClosed() {
+								// a previous source has failed or the subscription has been
+								// canceled: the next source must not be subscribed
+								return
+							}
+
 							sub := source.SubscribeWithContext(
 								ctx,
 								NewObserverWithContext(
 									destination.NextWithContext,
 									func(ctx context.Context, err error) {
-										subscriptions.Unsubscribe()
+										// deliver the error before releasing the goroutine blocked in
+										// Wait(), otherwise it may complete the destination first
 										destination.ErrorWithContext(ctx, err)
+										subscriptions.Unsubscribe()
 									},
 									func(ctx context.Context) {},
 								),
